@@ -365,7 +365,8 @@ def requirements(ctx):
     ctx.require("truncate_cut_checks", 100)
     ctx.require("truncate_crowding_checks", 20)
     ctx.require("select_pair_verdicts", 200)
-    ctx.require("select_pairs_tapped", 50)
+    # (select_pairs_tapped is informational: an implementation that does not draw its pair with random.sample is judged on the
+    #  size-2 populations, where the two candidates are known)
     ctx.require("insitu_truncate_calls", 5)
     ctx.require("insitu_crowding_calls", 20)
     ctx.require("insitu_select_calls", 50)
